@@ -1,2 +1,337 @@
-use crate::Scenario;
-pub fn scenarios() -> Vec<Scenario> { vec![] }
+//! C17: re-randomized FROST.  Participants' regenerated randomizer parameters equal the
+//! coordinator's; signing and aggregation succeed for any valid signer set; the signature verifies
+//! under the group key offset by the randomizer and not under the original key; the randomizer is a
+//! function of the seed and of the exact commitment set; cheater identification and threshold
+//! enforcement hold unchanged.
+
+use std::collections::{BTreeMap, BTreeSet};
+
+use frost_core as fc;
+use frost_core::{CheaterDetection, Group};
+use frost_rerandomized as rr;
+use serde_json::json;
+
+use crate::common::*;
+use crate::rng::TestRng;
+use crate::{scn, Scenario};
+
+pub fn scenarios() -> Vec<Scenario> {
+    vec![scn!(scenario_rerandomized_signing, 3), scn!(scenario_rerandomized_cheaters_and_threshold, 2)]
+}
+
+struct RrSession<C: Suite> {
+    keys: Keys<C>,
+    signers: Vec<Id<C>>,
+    package: fc::SigningPackage<C>,
+    nonces: BTreeMap<Id<C>, fc::round1::SigningNonces<C>>,
+    params: rr::RandomizedParams<C>,
+    seed: Vec<u8>,
+    shares: BTreeMap<Id<C>, fc::round2::SignatureShare<C>>,
+}
+
+fn rr_session<C: Suite>(rng: &mut TestRng, p: &Params, strict: bool) -> Result<RrSession<C>, Stop> {
+    let keys = keygen::<C>(rng, p, false)?;
+    let signers = signer_ids::<C>(&keys, p);
+    let (nonces, commitments) = commit_all::<C>(rng, &keys.key_packages, &signers)?;
+    let package = fc::SigningPackage::<C>::new(commitments.clone(), &p.message);
+    let vk = keys.pubkeys.verifying_key();
+    let (params, seed) = step(
+        strict,
+        rr::RandomizedParams::<C>::new_from_commitments(vk, package.signing_commitments(), &mut *rng),
+        "RandomizedParams::new_from_commitments",
+    )?;
+    let mut shares = BTreeMap::new();
+    for id in &signers {
+        let (kp, n) = match (keys.key_packages.get(id), nonces.get(id)) {
+            (Some(k), Some(n)) => (k, n),
+            _ => return skip("internal"),
+        };
+        let s = step(
+            strict,
+            rr::sign_with_randomizer_seed::<C>(&package, n, kp, &seed),
+            "sign_with_randomizer_seed by an honest signer",
+        )?;
+        shares.insert(*id, s);
+    }
+    Ok(RrSession {
+        keys,
+        signers,
+        package,
+        nonces,
+        params,
+        seed,
+        shares,
+    })
+}
+
+pub fn scenario_rerandomized_signing<C: Suite>(rng: &mut TestRng, p: &Params, notes: &mut Notes) -> Verdict {
+    let s = rr_session::<C>(rng, p, true)?;
+    let vk = s.keys.pubkeys.verifying_key();
+    notes.insert("randomizer_seed_hex".into(), json!(hex(&s.seed)));
+    // every participant regenerates the coordinator's parameters
+    let regen = must(
+        rr::RandomizedParams::<C>::regenerate_from_seed_and_commitments(vk, &s.seed, s.package.signing_commitments()),
+        "RandomizedParams::regenerate_from_seed_and_commitments",
+    )?;
+    check(regen == s.params, "regenerated randomizer parameters equal the coordinator's", short_dbg(&s.params), short_dbg(&regen))?;
+    // internal consistency of the parameters
+    let r = match scalar_from_bytes::<C>(&s.params.randomizer().serialize()) {
+        Some(r) => r,
+        None => return skip("randomizer encoding"),
+    };
+    let r_el = base_mul::<C>(&r);
+    check(
+        elem_bytes::<C>(s.params.randomizer_element()) == elem_bytes::<C>(&r_el),
+        "randomizer element equals generator * randomizer",
+        hex(&elem_bytes::<C>(&r_el)),
+        hex(&elem_bytes::<C>(s.params.randomizer_element())),
+    )?;
+    let vk_ser = match <<Gr<C> as Group>::Serialization as TryFrom<&[u8]>>::try_from(&vkey_bytes::<C>(vk)) {
+        Ok(x) => x,
+        Err(_) => return skip("key encoding"),
+    };
+    let vk_el = need(<Gr<C> as Group>::deserialize(&vk_ser), "group key element")?;
+    check(
+        vkey_bytes::<C>(s.params.randomized_verifying_key()) == elem_bytes::<C>(&(vk_el + r_el)),
+        "randomized verifying key equals group key + generator * randomizer",
+        hex(&elem_bytes::<C>(&(vk_el + r_el))),
+        hex(&vkey_bytes::<C>(s.params.randomized_verifying_key())),
+    )?;
+    // aggregation in every mode
+    let sig = must(rr::aggregate::<C>(&s.package, &s.shares, &s.keys.pubkeys, &s.params), "rerandomized aggregate of honest shares")?;
+    for (name, mode) in [
+        ("Disabled", CheaterDetection::Disabled),
+        ("FirstCheater", CheaterDetection::FirstCheater),
+        ("AllCheaters", CheaterDetection::AllCheaters),
+    ] {
+        let s2 = must(
+            rr::aggregate_custom::<C>(&s.package, &s.shares, &s.keys.pubkeys, mode, &s.params),
+            &format!("rerandomized aggregate_custom({name}) of honest shares"),
+        )?;
+        check(s2 == sig, &format!("rerandomized aggregate_custom({name}) returns the same signature"), short_dbg(&sig), short_dbg(&s2))?;
+    }
+    must(
+        s.params.randomized_verifying_key().verify(&p.message, &sig),
+        "the signature verifies under the randomized verifying key",
+    )?;
+    if r != zero::<C>() {
+        if vk.verify(&p.message, &sig).is_ok() {
+            return fail(
+                "the signature does not verify under the original group key (non-zero randomizer)",
+                "Err(..)",
+                "Ok(())",
+            );
+        }
+    }
+    // the randomizer is a function of the seed ...
+    let mut seed2 = s.seed.clone();
+    let i = rng.below(seed2.len().max(1));
+    if let Some(b) = seed2.get_mut(i) {
+        *b ^= 1 << rng.below(8);
+    }
+    let other_seed = must(
+        rr::RandomizedParams::<C>::regenerate_from_seed_and_commitments(vk, &seed2, s.package.signing_commitments()),
+        "regenerate with another seed",
+    )?;
+    check(other_seed.randomizer() != s.params.randomizer(), "changing the seed changes the randomizer", "different", "equal")?;
+    // ... and of the exact commitment set
+    let (_, commitments_b) = commit_all::<C>(rng, &s.keys.key_packages, &s.signers)?;
+    let mut cm = s.package.signing_commitments().clone();
+    let victim = match s.signers.get(rng.below(s.signers.len())) {
+        Some(v) => *v,
+        None => return skip("internal"),
+    };
+    let variant = ["one-pair-replaced", "one-binding-commitment-replaced", "one-hiding-commitment-replaced", "one-removed", "one-added"][rng.below(5)];
+    notes.insert("commitment_set_variant".into(), json!(variant));
+    match variant {
+        "one-pair-replaced" => {
+            if let Some(c) = commitments_b.get(&victim) {
+                cm.insert(victim, *c);
+            }
+        }
+        "one-binding-commitment-replaced" | "one-hiding-commitment-replaced" => {
+            if let (Some(a), Some(b)) = (cm.get(&victim).copied(), commitments_b.get(&victim)) {
+                let mixed = if variant.starts_with("one-binding") {
+                    fc::round1::SigningCommitments::<C>::new(*a.hiding(), *b.binding())
+                } else {
+                    fc::round1::SigningCommitments::<C>::new(*b.hiding(), *a.binding())
+                };
+                cm.insert(victim, mixed);
+            }
+        }
+        "one-removed" => {
+            cm.remove(&victim);
+        }
+        _ => {
+            let extra = need(Id::<C>::derive(b"one more signer"), "derive")?;
+            if let Some(c) = commitments_b.get(&victim) {
+                cm.insert(extra, *c);
+            }
+        }
+    }
+    if &cm != s.package.signing_commitments() && !cm.is_empty() {
+        let other_set = must(
+            rr::RandomizedParams::<C>::regenerate_from_seed_and_commitments(vk, &s.seed, &cm),
+            "regenerate with another commitment set",
+        )?;
+        check(other_set.randomizer() != s.params.randomizer(), "changing the commitment set changes the randomizer", "different", "equal")?;
+    }
+    // a signer that is handed another seed produces a share the coordinator rejects
+    if let (Some(kp), Some(n)) = (s.keys.key_packages.get(&victim), s.nonces.get(&victim)) {
+        if let Ok(bad) = rr::sign_with_randomizer_seed::<C>(&s.package, n, kp, &seed2) {
+            let mut shares = s.shares.clone();
+            shares.insert(victim, bad);
+            let e = must_refuse(
+                rr::aggregate::<C>(&s.package, &shares, &s.keys.pubkeys, &s.params),
+                "rerandomized aggregate with one share made for another randomizer seed",
+            )?;
+            check(
+                e.culprits() == vec![victim],
+                "the signer that used another randomizer seed is named",
+                format!("[{}]", id_hex::<C>(&victim)),
+                format!("{:?}", culprits_hex::<C>(&e)),
+            )?;
+        }
+    }
+    Ok(())
+}
+
+pub fn scenario_rerandomized_cheaters_and_threshold<C: Suite>(rng: &mut TestRng, p: &Params, notes: &mut Notes) -> Verdict {
+    let s = rr_session::<C>(rng, p, false)?;
+    need(rr::aggregate::<C>(&s.package, &s.shares, &s.keys.pubkeys, &s.params), "honest rerandomized aggregation")?;
+    // cheaters
+    let k = s.signers.len();
+    let ncheat = rng.range(1, k);
+    let idx = rng.subset(k, ncheat);
+    let mut shares = s.shares.clone();
+    let mut cheaters = BTreeSet::new();
+    for i in idx {
+        if let Some(id) = s.signers.get(i) {
+            if let Some(old) = s.shares.get(id) {
+                let z = sigshare_scalar::<C>(old)? + random_nonzero_scalar::<C>(rng);
+                shares.insert(*id, make_sigshare::<C>(&z)?);
+                cheaters.insert(*id);
+            }
+        }
+    }
+    let cheaters_v: Vec<Id<C>> = cheaters.iter().copied().collect();
+    notes.insert("cheaters_hex".into(), json!(ids_hex::<C>(&cheaters_v)));
+    let e = must_refuse(
+        rr::aggregate_custom::<C>(&s.package, &shares, &s.keys.pubkeys, CheaterDetection::AllCheaters, &s.params),
+        "rerandomized aggregate_custom(AllCheaters) with altered shares",
+    )?;
+    check(
+        e.culprits().into_iter().collect::<BTreeSet<_>>() == cheaters && e.culprits().len() == cheaters.len(),
+        "under randomization AllCheaters names exactly the participants whose share was altered",
+        format!("{:?}", ids_hex::<C>(&cheaters_v)),
+        format!("{:?}", culprits_hex::<C>(&e)),
+    )?;
+    for (name, r) in [
+        ("aggregate", rr::aggregate::<C>(&s.package, &shares, &s.keys.pubkeys, &s.params)),
+        ("aggregate_custom(FirstCheater)", rr::aggregate_custom::<C>(&s.package, &shares, &s.keys.pubkeys, CheaterDetection::FirstCheater, &s.params)),
+    ] {
+        let e = must_refuse(r, &format!("rerandomized {name} with altered shares"))?;
+        check(
+            e.culprits().first() == cheaters_v.first() && e.culprits().len() == 1,
+            &format!("under randomization {name} names exactly the lowest-identifier cheater"),
+            format!("{:?}", cheaters_v.first().map(id_hex::<C>)),
+            format!("{:?}", culprits_hex::<C>(&e)),
+        )?;
+    }
+    let e = must_refuse(
+        rr::aggregate_custom::<C>(&s.package, &shares, &s.keys.pubkeys, CheaterDetection::Disabled, &s.params),
+        "rerandomized aggregate_custom(Disabled) with altered shares",
+    )?;
+    check(e.culprits().is_empty(), "with detection disabled nobody is named", "[]", format!("{:?}", culprits_hex::<C>(&e)))?;
+
+    // threshold: fewer than t signers
+    let m = rng.range(1, p.t as usize - 1);
+    let few: Vec<Id<C>> = s.signers.iter().take(m).copied().collect();
+    let (nonces, commitments) = commit_all::<C>(rng, &s.keys.key_packages, &few)?;
+    let package = fc::SigningPackage::<C>::new(commitments, &p.message);
+    let (params, seed) = need(
+        rr::RandomizedParams::<C>::new_from_commitments(s.keys.pubkeys.verifying_key(), package.signing_commitments(), &mut *rng),
+        "new_from_commitments",
+    )?;
+    let mut few_shares = BTreeMap::new();
+    for id in &few {
+        if let (Some(kp), Some(n)) = (s.keys.key_packages.get(id), nonces.get(id)) {
+            must_refuse(
+                rr::sign_with_randomizer_seed::<C>(&package, n, kp, &seed),
+                &format!("sign_with_randomizer_seed for a package listing {m} participants with min_signers {}", p.t),
+            )?;
+            // the signer lies about its threshold
+            let lying = fc::keys::KeyPackage::<C>::new(*kp.identifier(), *kp.signing_share(), *kp.verifying_share(), *kp.verifying_key(), m as u16);
+            if let Ok(sh) = rr::sign_with_randomizer_seed::<C>(&package, n, &lying, &seed) {
+                few_shares.insert(*id, sh);
+            }
+        }
+    }
+    // Colluders that know the whole secret (e.g. the dealer) can make m < t shares that DO add up: the
+    // last "participant" uses s' = (s - sum_{i != j} lambda_i s_i) / lambda_j.  The coordinator holding the
+    // genuine public key package must still refuse, because fewer than min_signers shares were submitted.
+    let all: Vec<fc::keys::KeyPackage<C>> = s.keys.key_packages.values().cloned().collect();
+    if let (Ok(sk), Some(last)) = (fc::keys::reconstruct::<C>(&all), few.last().copied()) {
+        let xs: Vec<Sc<C>> = few.iter().map(id_scalar::<C>).collect::<Result<_, _>>()?;
+        let mut rest = zero::<C>();
+        let mut lam_last = None;
+        for id in &few {
+            let lam = match lagrange::<C>(&xs, &id_scalar::<C>(id)?, &zero::<C>()) {
+                Some(l) => l,
+                None => return skip("lagrange"),
+            };
+            if *id == last {
+                lam_last = Some(lam);
+            } else if let Some(kp) = s.keys.key_packages.get(id) {
+                rest = rest + lam * share_scalar::<C>(kp.signing_share())?;
+            }
+        }
+        let secret = sk.to_scalar();
+        let inv = lam_last.and_then(|l| <Fd<C> as frost_core::Field>::invert(&l).ok());
+        if let (Some(inv), Some(kp), Some(n)) = (inv, s.keys.key_packages.get(&last), nonces.get(&last)) {
+            let forged_share = (secret - rest) * inv;
+            let forged = fc::keys::KeyPackage::<C>::new(
+                last,
+                make_signing_share::<C>(&forged_share)?,
+                *kp.verifying_share(),
+                *kp.verifying_key(),
+                m as u16,
+            );
+            if let Ok(sh) = rr::sign_with_randomizer_seed::<C>(&package, n, &forged, &seed) {
+                let mut crafted = few_shares.clone();
+                crafted.insert(last, sh);
+                if crafted.len() == few.len() {
+                    for (name, mode) in [
+                        ("FirstCheater", CheaterDetection::FirstCheater),
+                        ("AllCheaters", CheaterDetection::AllCheaters),
+                        ("Disabled", CheaterDetection::Disabled),
+                    ] {
+                        if let Ok(sig) = rr::aggregate_custom::<C>(&package, &crafted, &s.keys.pubkeys, mode, &params) {
+                            return fail(
+                                &format!("the rerandomized coordinator refuses to aggregate {m} < {} shares even when colluders made them add up ({name})", p.t),
+                                "Err(..)",
+                                format!(
+                                    "Ok({}); verifies under the randomized key: {}",
+                                    short_dbg(&sig),
+                                    params.randomized_verifying_key().verify(&p.message, &sig).is_ok()
+                                ),
+                            );
+                        }
+                    }
+                }
+            }
+        }
+    }
+    match rr::aggregate::<C>(&package, &few_shares, &s.keys.pubkeys, &params) {
+        Err(_) => Ok(()),
+        Ok(sig) => fail(
+            &format!("the rerandomized coordinator refuses to aggregate {m} < {} shares", p.t),
+            "Err(..)",
+            format!(
+                "Ok({}); verifies under the randomized key: {}",
+                short_dbg(&sig),
+                params.randomized_verifying_key().verify(&p.message, &sig).is_ok()
+            ),
+        ),
+    }
+}
